@@ -10,6 +10,20 @@ use vcore::{json, Check, Outcome, Report, Tier, Value};
 pub const K: f64 = 10.0;
 /// constant of the global bounds of C04 (worst observed ratio on the repaired tree: 1.0 x G x tol, so 6 leaves a factor 6)
 pub const KG: f64 = 6.0;
+/// global-error constant per solver: about five times the worst err / (G tol) observed on the repaired tree over the
+/// thorough ladder (adams3 0.34, adams5 0.41, rk45 0.97, bdf6 0.18, rk23 0.08, bdf2 0.05), capped by KG.  A loss of
+/// convergence order shows as a constant that grows as the tolerance shrinks - a single constant for all solvers
+/// sized for RK4(5) (whose unseen sixth-order term saturates at the step cap) hides that for the others.
+pub fn kg_of(s: Solver) -> f64 {
+    match s {
+        Solver::Adams3 => 1.7,
+        Solver::Adams5 => 2.0,
+        Solver::BDF6 => 0.9,
+        Solver::RK23 => 0.4,
+        Solver::BDF2 => 0.27,
+        _ => KG,
+    }
+}
 const PROBLEMS12: [&str; 12] = ["lin+1", "lin-2", "logistic", "gauss", "cost", "relax", "bernoulli", "osc1", "rot2:lin-2+logistic", "rot2:cost+relax", "rot3:osc2.5+gauss", "rot4:osc1+logistic+bernoulli"];
 
 /// problems whose Lipschitz constant does not depend on the amplitude (linear in the state), run at large amplitude
@@ -72,6 +86,10 @@ pub struct LocalPt {
     /// that what is left before the end falls below, at and above the minimum step (default: 1e-7, 2/L)
     #[serde(default)]
     pub end_sweep: Option<(f64, usize)>,
+    /// true: the maximum step is the property's cap itself (no amplitude correction; states of size O(1) only), so that
+    /// the first step (half the maximum) lies ABOVE the step the error estimate settles at
+    #[serde(default)]
+    pub at_cap: bool,
 }
 pub struct Local;
 impl Check for Local {
@@ -83,26 +101,33 @@ impl Check for Local {
         "6 adaptive solvers x catalogue problems (closed-form flows, dimension 1-4) x tolerance x maximum step = min(c x cap(tol)/L, the step at which the first term the estimator cannot see equals 2 tol h for the amplitude of the solution) x initial states (amplitudes 0.6, 1, 60, 2000), t in [0.3, 0.3 + 2/L]; every consecutive pair of every path is judged against the exact flow restarted from the previous point; signature = (solver, tolerance decade, share of cap-limited steps class, end kind)".into()
     }
     fn axes(&self, t: Tier) -> Value {
-        json!({"problems": t.pick(&PROBLEMS12[..][..6], &PROBLEMS12[..]), "tol": t.pick(vec![1e-3, 1e-5, 1e-7, 1e-9], vec![1e-3, 1e-4, 1e-5, 1e-6, 1e-7, 1e-8, 1e-9, 1e-10]), "c": [1.0, 0.5, 0.25], "u0_scale": [1.0, 0.6], "K": K})
+        json!({"problems": t.pick(&PROBLEMS12[..][..6], &PROBLEMS12[..]), "tol": [1e-3, 1e-4, 1e-5, 1e-6, 1e-7, 1e-8, 1e-9, 1e-10], "c": [1.0, 0.5, 0.25], "u0_scale": [1.0, 0.6], "K": K})
     }
     fn points(&self, t: Tier) -> Vec<LocalPt> {
         let mut v = vec![];
         let probs: Vec<&str> = t.pick(vec!["lin+1", "logistic", "gauss", "osc1", "rot2:cost+relax", "rot4:osc1+logistic+bernoulli"], PROBLEMS12.to_vec());
         for &solver in &ADAPTIVE {
             for p in &probs {
-                for &tol in &t.pick(vec![1e-3, 1e-5, 1e-7, 1e-9], vec![1e-3, 1e-4, 1e-5, 1e-6, 1e-7, 1e-8, 1e-9, 1e-10]) {
+                // every decade of the property's tolerance range in both tiers (a floor under the tolerance shows only below it)
+                for &tol in &[1e-3, 1e-4, 1e-5, 1e-6, 1e-7, 1e-8, 1e-9, 1e-10] {
                     for &c in &t.pick(vec![1.0, 0.25], vec![1.0, 0.5, 0.25]) {
                         for &u0_scale in &t.pick(vec![1.0], vec![1.0, 0.6]) {
-                            v.push(LocalPt { solver, problem: p.to_string(), tol, c, u0_scale, end_sweep: None });
+                            v.push(LocalPt { solver, problem: p.to_string(), tol, c, u0_scale, end_sweep: None, at_cap: false });
                         }
                     }
+                }
+            }
+            // the property's cap itself for states of size O(1): the estimator has to bring the step DOWN from the first one
+            for p in ["lin+1", "logistic", "osc1", "rot2:cost+relax"] {
+                for &tol in &[1e-3, 1e-4, 1e-5, 1e-6, 1e-7, 1e-8, 1e-9, 1e-10] {
+                    v.push(LocalPt { solver, problem: p.to_string(), tol, c: 1.0, u0_scale: 1.0, end_sweep: None, at_cap: true });
                 }
             }
             // large minimum step x end times swept across one maximum step (the clipped final step and its neighbours)
             for p in ["lin+1", "osc1", "rot2:cost+relax"] {
                 for &q in &[0.5, 0.25] {
                     for j in 0..8 {
-                        v.push(LocalPt { solver, problem: p.to_string(), tol: 1e-5, c: 1.0, u0_scale: 1.0, end_sweep: Some((q, j)) });
+                        v.push(LocalPt { solver, problem: p.to_string(), tol: 1e-5, c: 1.0, u0_scale: 1.0, end_sweep: Some((q, j)), at_cap: false });
                     }
                 }
             }
@@ -111,7 +136,7 @@ impl Check for Local {
             for p in LARGE {
                 for &tol in &t.pick(vec![1e-4, 1e-7], vec![1e-3, 1e-5, 1e-7, 1e-9]) {
                     for &u0_scale in &t.pick(vec![60.0], vec![60.0, 2000.0]) {
-                        v.push(LocalPt { solver, problem: p.to_string(), tol, c: 1.0, u0_scale, end_sweep: None });
+                        v.push(LocalPt { solver, problem: p.to_string(), tol, c: 1.0, u0_scale, end_sweep: None, at_cap: false });
                     }
                 }
             }
@@ -127,12 +152,14 @@ impl Check for Local {
         let mut o = Outcome::new();
         let prob = scaled(&problem(&p.problem), p.u0_scale);
         let t0 = 0.3;
-        let l = prob.lipschitz(t0, t0 + 2.0).max(0.5);
-        let t1 = t0 + 2.0 / l;
+        // (points at the property's own cap run over 3/L: a growing solution reaches e^3 times its initial size)
+        let horizon = if p.at_cap { 3.0 } else { 2.0 };
+        let l = prob.lipschitz(t0, t0 + horizon).max(0.5);
+        let t1 = t0 + horizon / l;
         let l = prob.lipschitz(t0, t1).max(0.5);
         // amplitude of the exact solution over the interval (sampled closed form)
         let amp = (0..=64).map(|i| ninf(&prob.flow(t0, &prob.y0(), t0 + (t1 - t0) * i as f64 / 64.0))).fold(0.0, f64::max);
-        let dtmax = (p.c * step_cap(p.solver, p.tol, l)).min(unseen_cap(p.solver, p.tol, l, amp));
+        let dtmax = if p.at_cap { step_cap(p.solver, p.tol, l) } else { (p.c * step_cap(p.solver, p.tol, l)).min(unseen_cap(p.solver, p.tol, l, amp)) };
         let cfg = match p.end_sweep {
             None => Cfg { tol: p.tol, dtmin: 1e-7 * dtmax, dtmax, t0, t1 },
             Some((q, j)) => Cfg { tol: p.tol, dtmin: q * dtmax, dtmax, t0, t1: t0 + dtmax * (4.0 + j as f64 / 8.0 + 1e-3) },
@@ -329,7 +356,7 @@ impl Check for Work {
         let mut v = vec![];
         let mut probs = PROBLEMS12.to_vec();
         probs.push("rest");
-        probs.extend(["rest-at-origin", "decay-at-origin", "oscillator-at-origin"]);
+        probs.extend(["rest-at-origin", "decay-at-origin", "oscillator-at-origin", "fast:lin+40", "fast:osc30"]);
         for &solver in &ADAPTIVE {
             for p in &probs {
                 for &tol in &t.pick(vec![1e-3, 1e-7], vec![1e-3, 1e-5, 1e-7, 1e-9]) {
@@ -443,7 +470,7 @@ impl Check for Global {
         "7 solvers x 10 closed-form problems x tolerance ladder with the C02 step cap (Euler: step ladder 0.1 x 2^-k / L), start time 0.3 (non-autonomous problems also -0.45, so that the interval straddles 0), static dimension, and for 3 problems x 2 tolerances also dynamic dimension (must agree with the static run to rounding); every yielded state compared with the true solution; signature = (solver, ladder rung, end kind, static/dynamic)".into()
     }
     fn axes(&self, t: Tier) -> Value {
-        json!({"problems": PROBLEMS10, "tol": t.pick(vec![1e-3, 1e-6, 1e-9], vec![1e-3, 1e-4, 1e-5, 1e-6, 1e-7, 1e-8, 1e-9, 1e-10]), "euler_step*L": t.pick("0.1*2^-k, k in {0,3,6}", "0.1*2^-k, k=0..9"), "K": KG})
+        json!({"problems": PROBLEMS10, "tol": t.pick(vec![1e-3, 1e-6, 1e-9], vec![1e-3, 1e-4, 1e-5, 1e-6, 1e-7, 1e-8, 1e-9, 1e-10]), "euler_step*L": t.pick("0.1*2^-k, k in {0,3,6}", "0.1*2^-k, k=0..9"), "K": {"rk45": KG, "adams5": kg_of(Solver::Adams5), "adams3": kg_of(Solver::Adams3), "bdf6": kg_of(Solver::BDF6), "rk23": kg_of(Solver::RK23), "bdf2": kg_of(Solver::BDF2)}})
     }
     fn points(&self, t: Tier) -> Vec<GlobalPt> {
         let mut v = vec![];
@@ -495,9 +522,9 @@ impl Check for Global {
                 let e2 = d.iter().map(|x| x * x).sum::<f64>().sqrt();
                 (e2, cfg.dtmax * m2 / (2.0 * l) * ((l * (t - cfg.t0)).exp() - 1.0) * (1.0 + 1e-6) + 64.0 * EPS * ninf(y) * (i as f64 + 1.0), "euler-first-order-bound")
             } else if bdf {
-                (ninf(&d), KG * g * p.tol * (i as f64 + 1.0) + 64.0 * EPS * ninf(y), "global-error<=K*G*tol*steps")
+                (ninf(&d), kg_of(p.solver) * g * p.tol * (i as f64 + 1.0) + 64.0 * EPS * ninf(y), "global-error<=K*G*tol*steps")
             } else {
-                (ninf(&d), KG * g * p.tol + 64.0 * EPS * ninf(y) * (i as f64 + 1.0), "global-error<=K*G*tol")
+                (ninf(&d), kg_of(p.solver) * g * p.tol + 64.0 * EPS * ninf(y) * (i as f64 + 1.0), "global-error<=K*G*tol")
             };
             worst = worst.max(err / bound);
             if !(err <= bound) {
@@ -506,6 +533,10 @@ impl Check for Global {
             }
         }
         o.metric(&format!("{}-global-err/bound", p.solver.name()), worst);
+        if std::env::var("VERIF_C04_LADDER").is_ok() && !p.dynamic {
+            // diagnostic: error constant per rung of the tolerance ladder
+            eprintln!("LADDER {} {} t0={:?} tol={:e} err/(G tol)={:.4}", p.solver.name(), p.problem, p.t0, p.tol, worst * kg_of(p.solver));
+        }
         if p.dynamic {
             // a dynamically sized state vector produces the same solution as a statically sized one
             let st = run_real(p.solver, &prob, &cfg, DimMode::Static, 60_000_000);
@@ -652,7 +683,7 @@ pub fn main_c02(mut r: Report) -> ! {
     r.finish()
 }
 pub fn main_c04(mut r: Report) -> ! {
-    r.assumptions = vec![format!("K = {}, G = (e^(LT)-1)/L from the catalogue", KG), "Euler: textbook bound (hM/2L)(e^(L(t-t0))-1) in the 2-norm with M sampled from the closed form (+5%)".into()];
+    r.assumptions = vec![format!("global-error constant per solver (about 5x the worst observed, at most {}): adams3 1.7, adams5 2.0, rk45 6, bdf6 0.9, rk23 0.4, bdf2 0.27; G = (e^(LT)-1)/L from the catalogue", KG), "Euler: textbook bound (hM/2L)(e^(L(t-t0))-1) in the 2-norm with M sampled from the closed form (+5%)".into()];
     r.run(&Global);
     r.run(&ComplexTwin);
     r.finish()
